@@ -214,7 +214,13 @@ func (c *mctx) wrap(k int, inner func(*mctx) []*S) []*S {
 		if body == nil {
 			return nil
 		}
-		return []*S{{K: SSwitch, ID: g.id(), E: bin(c.idx(), "%", lit(2)), Cases: []*Case{{Vals: []*X{lit(g.r.Intn(2))}, Body: body}, {Default: true, Body: []*S{d.effS()}}}}}
+		k0 := g.r.Intn(3)
+		def := []*S{d.effS()}
+		if c.canYield && g.r.Bool() {
+			def = []*S{d.yieldS(7)}
+		}
+		// (one clause is empty: its values are matched and nothing happens)
+		return []*S{{K: SSwitch, ID: g.id(), E: bin(c.idx(), "%", lit(3)), Cases: []*Case{{Vals: []*X{lit(k0)}, Body: body}, {Vals: []*X{lit((k0 + 1) % 3)}}, {Default: true, Body: def}}}}
 	case 8: // type switch with a binding
 		d.inSwitch = true
 		body := inner(d)
